@@ -21,7 +21,7 @@ RULE = ("a case is a schema over all persistent families (containers of encoded 
         "modulo the two stated normalisations, and the default key file must stay untouched; out-of-domain (state, "
         "format) pairs are skipped and counted; non-trivial = state with >= 3 set values reloaded in >= 2 formats; "
         "distinct = distinct (schema, state)")
-REQUIRED = ("roundtrips_after_key_rotation", "schema_key_equals_root_tag", "nested_encoded_containers", "roundtrips:json", "roundtrips:yaml", "roundtrips:bson", "roundtrips:xml", "roundtrips:pickle",
+REQUIRED = ("dynamic_fields_with_dotted_names", "roundtrips_after_key_rotation", "schema_key_equals_root_tag", "nested_encoded_containers", "roundtrips:json", "roundtrips:yaml", "roundtrips:bson", "roundtrips:xml", "roundtrips:pickle",
             "tree_plainness_checks", "virtual_key_checks", "states_validated", "list_of_config_states",
             "encoded_item_containers")
 ASSUMPTIONS = ["equality is judged on the plain image of the configurations (values at every depth), not on object identity",
@@ -68,6 +68,17 @@ def generate(rng, ctx):
     dyn = {}
     if schema.get("dynamic") and rng.random() < 0.7:
         dyn = {"dyn_%d" % i: roundtrip.plain_value(rng, fmt) for i in range(rng.choice([1, 2]))}
+        # extra fields may have any name, also one that reads like a path into a section of the same configuration
+        secs = [ch for ch in schema["fields"] if ch["kind"] == "schema"]
+        if rng.random() < 0.5:
+            names = ["dotted.name", "a.b.c"]
+            for sec in secs[:2]:
+                names.append(sec["key"] + ".zz")
+                leaves = [c for c in sec["fields"] if c["kind"] == "field" and c["family"] in ("str", "int", "bool", "float")]
+                if leaves:
+                    names.append(sec["key"] + "." + rng.choice(leaves)["key"])
+            for nm in rng.sample(names, rng.choice([1, 2])):
+                dyn[nm] = rng.choice([1, "s", True, 2.5])
     return {"schema": schema, "fmt": fmt, "tree": tree, "ops": ops, "dyn": dyn,
             "rotate": rng.randrange(1, 1 << 20) if rng.random() < 0.5 else 0}
 
@@ -114,6 +125,8 @@ def run(case, ctx, res):
     for k, v in case["dyn"].items():
         try:
             setattr(cfg, k, v)
+            if "." in k:
+                res.count("dynamic_fields_with_dotted_names")
         except Exception:
             pass
     try:
